@@ -30,10 +30,18 @@
                                                                xml_gap_before_document (parse (g ++ d) ~ parse d)
         (white space BEHIND a comment in front of text is swallowed with the comment, white space IN FRONT
          of it becomes a text node of its own: hence "gap that begins with a comment" and text_start)
-   "(and processing instructions before the root element)"  -> xml_pi_before_root_skipped,
-                                                               xml_pi_before_document (parse (<?a?> ++ d) ~ parse d
-                                                               for bodies a without ? CR LF NUL; a body with
-                                                               line breaks: Example ex_pi_line_break only)
+   "(and processing instructions before the root element)"  -> xml_pi_before_root_skipped, xml_pi_before_document
+                                                               (bodies without ? CR LF NUL),
+                                                               xml_any_processing_instruction_before_document
+                                                               (EVERY body: any byte but NUL, the instruction ends
+                                                               at its first "?>"; the code after repair 08),
+                                                               xml_prolog_before_document (any mix of white space,
+                                                               comments and instructions in front of the root),
+                                                               xml_prolog_changes_no_data (... leaves names,
+                                                               attributes, nesting and character data as they are:
+                                                               XmlSpec.squash, the relation the check's parseg
+                                                               judge evaluates on the implementation),
+                                                               xml_same_tree_same_data
    "for every element tree with well-formed names, arbitrary
     attribute values and non-blank, non-adjacent text nodes,
     parsing the output of toString yields the same names,
@@ -47,7 +55,8 @@
         xml_handle_counts_exact (every reference count = number of Variant objects pointing to the
         block, for every history; so the in-place write path, taken when ref == 1, is seen by the
         written handle alone) and xml_handles_refine_values (the heap model with copy-on-write
-        refines the value store of the spec)
+        refines the value store of the spec), xml_assign_from_own_content_item (the source of an assignment may
+        be a content item of the assigned Variant itself: node = node.toElement().content[k])
 
         A reference obtained from the non-const toElement() and KEPT by the caller
         (`Element& e = v.toElement(); Variant w(v); e.type = ...;`):
@@ -75,7 +84,7 @@
    Only statements closed by `exact`, each followed by Print Assumptions, plus non-vacuity
    Examples. *)
 From Coq Require Import ZArith List Bool.
-From Xml Require Import Gen_Xml XmlSpec XmlModel XmlProofsCodec XmlProofsScan XmlProofsTotal XmlProofsRound XmlProofsComment XmlProofsContext XmlProofsHandles XmlProofsReuse XmlProofsFile XmlProofsHeld.
+From Xml Require Import Gen_Xml XmlSpec XmlModel XmlProofsCodec XmlProofsScan XmlProofsTotal XmlProofsRound XmlProofsComment XmlProofsContext XmlProofsHandles XmlProofsReuse XmlProofsFile XmlProofsHeld XmlProofsAccept.
 Import ListNotations.
 Local Open Scope Z_scope.
 
@@ -226,6 +235,48 @@ Theorem xml_pi_before_document : forall a d, pi_body a = true ->
 Proof. exact parse_pi_before_document. Qed.
 Print Assumptions xml_pi_before_document.
 
+(* ---- processing instructions with any body; the whole prolog; what must not change ------------- *)
+
+(* a processing instruction ends at its first "?>": ANY body (every byte but NUL - also '?', line breaks, a
+   comment opener) is stepped over (the code after repair 08) *)
+Theorem xml_any_processing_instruction_before_document : forall a d, pi_text a = true ->
+  rrel Rdoc (parse (proc_instr a ++ d)) (parse d).
+Proof. exact parse_any_pi_before_document. Qed.
+Print Assumptions xml_any_processing_instruction_before_document.
+
+(* white space, comments and processing instructions in front of the root element, in any number and mix *)
+Theorem xml_prolog_before_document : forall j d, prolog_text j -> rrel Rdoc (parse (j ++ d)) (parse d).
+Proof. exact parse_prolog_before_document. Qed.
+Print Assumptions xml_prolog_before_document.
+
+(* ... and the relation the check judges on the implementation (op parseg): both accepted with the same names,
+   attributes, nesting and character data, or both rejected with the same message *)
+Theorem xml_prolog_changes_no_data : forall j d, prolog_text j -> rrel same_up_to_gaps (parse (j ++ d)) (parse d).
+Proof. exact parse_prolog_same_data. Qed.
+Print Assumptions xml_prolog_changes_no_data.
+
+Theorem xml_same_tree_same_data : forall a b, erase a = erase b -> same_up_to_gaps a b.
+Proof. exact same_tree_same_data. Qed.
+Print Assumptions xml_same_tree_same_data.
+
+(* <?A ?<!--?><a/> (the witness of repair 08) and <?x LF <!-- ?> CR LF <!--c--><?y??><a/> are accepted;
+   the instruction ends at the FIRST "?>":  <?x ?<!-- ?>--><a/>  is not a document *)
+Example ex_pi_any_body :
+  parse [60;63;65;32;63;60;33;45;45;63;62;60;97;47;62] = Ok (N 1 12 [97] [] []) /\
+  pi_text [65;32;63;60;33;45;45] = true /\
+  parse ([60;63;120;10;60;33;45;45;32;63;62;13;10] ++ comment [99] ++ [60;63;121;63;63;62;60;97;47;62]) = Ok (N 3 15 [97] [] []) /\
+  parse [60;63;120;32;63;60;33;45;45;32;63;62;45;45;62;60;97;47;62] = Syn 1 13 EExpLt.
+Proof. repeat split; vm_compute; reflexivity. Qed.
+
+(* the relation is wider than "same tree up to positions" exactly where the text is silent: white space next to
+   a comment.   <a> <!--c--> x</a>  gives the text nodes " " and "x",  <a>  x</a>  gives "  x" *)
+Example ex_same_up_to_gaps :
+  match parse ([60;97;62;32] ++ comment [99] ++ [32;120;60;47;97;62]), parse [60;97;62;32;32;120;60;47;97;62] with
+  | Ok a, Ok b => same_up_to_gaps a b /\ erase a <> erase b
+  | _, _ => False
+  end.
+Proof. vm_compute. split; [reflexivity|discriminate]. Qed.
+
 Theorem xml_more_fuel_same_answer : forall f,
   (forall tp p, parseElement f tp p <> Fuel -> parseElement (S f) tp p = parseElement f tp p) /\
   (forall acc p, parseContent f acc p <> Fuel -> parseContent (S f) acc p = parseContent f acc p).
@@ -334,6 +385,23 @@ Example ex_handles_cow :
   vabs (vrun [VElem 0 [97]; VCopy 1 0; VChild 0 1; VCopy 2 0; VSubMut 2 0 [99]; VName 1 [98]]) =
   [Some (N 0 0 [97] [] [N 0 0 [97] [] []]); Some (N 0 0 [98] [] []); Some (N 0 0 [97] [] [N 0 0 [99] [] []])].
 Proof. vm_compute. reflexivity. Qed.
+
+(* a Variant assigned from a content item - also from its OWN content item (node = node.toElement().content[k]:
+   the right-hand side lives inside the value the assignment releases): the slot then holds the value the item
+   had, the counts stay exact (so the item's block was not freed under the assignment) *)
+Theorem xml_assign_from_own_content_item : forall ops i j k l c nm at_ ct y,
+  sget (vabs (vrun ops)) j = Some (N l c nm at_ ct) -> nth_error ct k = Some y ->
+  vabs (mstep (vrun ops) (VSub i j k)) = sset (vabs (vrun ops)) i (Some y) /\ Inv (mstep (vrun ops) (VSub i j k)).
+Proof. exact assign_from_content_item. Qed.
+Print Assumptions xml_assign_from_own_content_item.
+
+(* a(b(c)) held by slot 0 alone; slot 0 := its own content item, twice: b(c), then c; no block is left with a count *)
+Example ex_hoist_own_child :
+  let h := [VElem 0 [97]; VElem 1 [98]; VElem 2 [99]; VChild 1 2; VChild 0 1; VDel 1; VDel 2] in
+  vabs (vrun (h ++ [VSub 0 0 0])) = [Some (N 0 0 [98] [] [N 0 0 [99] [] []]); None; None] /\
+  vabs (vrun (h ++ [VSub 0 0 0; VSub 0 0 0])) = [Some (N 0 0 [99] [] []); None; None] /\
+  filter (fun n => negb (Nat.eqb n 0)) (map rc (hp (vrun (h ++ [VSub 0 0 0; VSub 0 0 0; VDel 0])))) = [].
+Proof. repeat split; vm_compute; reflexivity. Qed.
 
 (* ---- a reference obtained from toElement() and kept by the caller -------------------------- *)
 
